@@ -110,8 +110,7 @@ let of_tables (t : Dfa.tables) : t =
         List [Atom "ccompadd"; of_opt of_levels t.Dfa.t_ccompadd]]
 
 let alltables_of (v : t) : Dfa.alltables =
-  match v with
-  | List [Atom "alltables"; _needs; cmds; states; main; subtrans; csub; subwords] ->
+  let build cmds states main subtrans csub subwords subacc =
       { Dfa.a_commands = List.map (fun c -> cl (string_ c)) (lfield "commands" cmds);
         a_states = List.map n_ (lfield "states" states);
         a_main = tables_of (field "main" main);
@@ -119,5 +118,12 @@ let alltables_of (v : t) : Dfa.alltables =
         a_csub = levels_of (field "csub" csub);
         a_subwords = List.map (fun s -> match s with
             | List [pi; id; t] -> ((n_ pi, n_ id), tables_of t)
-            | _ -> raise (Shape "subword tables")) (lfield "subwords" subwords) }
+            | _ -> raise (Shape "subword tables")) (lfield "subwords" subwords);
+        a_subaccepting = subacc } in
+  match v with
+  | List [Atom "alltables"; _needs; cmds; states; main; subtrans; csub; subwords] ->
+      build cmds states main subtrans csub subwords []
+  | List [Atom "alltables"; _needs; cmds; states; main; subtrans; csub; subwords; subacc] ->
+      (* (subaccepting (script-id state ...) ...): accepting states of the within-word automata (from the MIN stage) *)
+      build cmds states main subtrans csub subwords (List.map ids_row_of (lfield "subaccepting" subacc))
   | v -> raise (Shape ("alltables: " ^ to_string v))
